@@ -459,7 +459,29 @@ func engineStopRule(c *Ctx, id string) {
 			}
 			c.R.Check(!cfgx.InstrReaches(cancel, srcStop[0], nil), load.FuncName(fn)+": cancel after the sources", c.pos(cancel.Pos()),
 				"no source is stopped after c.cancel(): the controller's context is still live while its watches are torn down", "c.cancel() runs before the watches are stopped: a Stop issued with the controller's own (now cancelled) context, or any failed source stop, leaves a cancelled controller registered as running")
-			c.R.Check(cfgx.InstrReaches(cancel, delControllers, nil) && cfgx.MustPass(cancel.Block(), delControllers.Block()), load.FuncName(fn)+": cancel→delete", c.pos(delControllers.Pos()),
+			// `if c.cancel != nil { c.cancel() }`: nothing to cancel is not a way round the cancel
+			var nothingToCancel []cfgx.Edge
+			for _, cf := range findCmps(fn, true, func(x, y ssa.Value) bool {
+				if !cfgx.IsNilConst(y) {
+					return false
+				}
+				r1, p1, ok1 := flow.AccessPathC(x)
+				r2, p2, ok2 := flow.AccessPathC(cancel.Common().Value)
+				return ok1 && ok2 && r1 == r2 && p1 == p2 // another read of the same c.cancel
+			}) {
+				nothingToCancel = append(nothingToCancel, cf.Holds...)
+			}
+			passes := func(b *ssa.BasicBlock) bool {
+				if cfgx.MustPass(cancel.Block(), b) {
+					return true
+				}
+				if len(nothingToCancel) == 0 {
+					return false
+				}
+				seen := cfgx.ReachFromEntry(fn, map[*ssa.BasicBlock]bool{cancel.Block(): true}, nothingToCancel)
+				return !seen[b] || b == cancel.Block()
+			}
+			c.R.Check(cfgx.InstrReaches(cancel, delControllers, nil) && passes(delControllers.Block()), load.FuncName(fn)+": cancel→delete", c.pos(delControllers.Pos()),
 				"delete(e.controllers, name) is dominated by c.cancel()", "the controller is forgotten without being cancelled")
 			// every nil-return on the running edge passes cancel: returns reachable from the block after the running test
 			for _, b := range fn.Blocks {
@@ -468,9 +490,9 @@ func engineStopRule(c *Ctx, id string) {
 					continue
 				}
 				if cfgx.InstrReaches(srcStop[0], r, failEdges(srcStop[0])) || loopDoneReaches(loop, r) {
-					okc := cfgx.MustPass(cancel.Block(), r.Block()) || !cfgx.InstrReaches(cancel, r, nil) && false
+					okc := false
 					if cfgx.InstrReaches(cancel, r, nil) {
-						okc = cfgx.MustPass(cancel.Block(), r.Block())
+						okc = passes(r.Block())
 					} else {
 						continue
 					}
